@@ -71,9 +71,24 @@ func runC29(c *Ctx) {
 	for _, b := range vf.Blocks {
 		for _, in := range b.Instrs {
 			if phi, ok := in.(*ssa.Phi); ok && isIntType(phi.Type()) {
-				if is, isCnt := counterIncrements(phi, isZeroConst); isCnt && phi.Comment == "valid" || isCnt && len(is) == 1 && !strings.Contains(phi.Comment, "rangeindex") {
-					// pick the counter that reaches the threshold comparison
-					cnt, incs = phi, is
+				if is, isCnt := counterIncrements(phi, isZeroConst); isCnt {
+					// the counter that reaches the threshold comparison (not a loop index)
+					reaches := false
+					if phi.Referrers() != nil {
+						for _, ref := range *phi.Referrers() {
+							if bo, ok := ref.(*ssa.BinOp); ok && (bo.Op == token.LEQ || bo.Op == token.LSS || bo.Op == token.GTR || bo.Op == token.GEQ) {
+								if strings.Contains(render(bo), "len($r.Validators)") && (strings.Contains(render(bo), "3") || strings.Contains(render(bo), "hasSecp256k1Quorum")) {
+									reaches = true
+								}
+							}
+							if cl, ok := ref.(*ssa.Call); ok && cl.Common().StaticCallee() != nil && strings.Contains(render(cl), "len($r.Validators)") {
+								reaches = true // handed to a quorum helper together with the validator count
+							}
+						}
+					}
+					if reaches {
+						cnt, incs = phi, is
+					}
 				}
 			}
 		}
